@@ -309,6 +309,7 @@ pub fn run_with(w: usize, t: usize, reorder: bool, src: &str, given: Option<&str
     f.push(format!("kfg={}", has_linebreak_before_punct(root) as u8));
     f.push(format!("kfi={}", has_marker_like_text(root) as u8));
     f.push(format!("kfj={}", has_paren_key_collision(root) as u8));
+    f.push(format!("kfk={}", obs::has_table_in_mixed_line(root) as u8));
     let kfd = obs::obs_off(root).iter().any(|x| matches!(x, Some((_, t)) if t.contains('\n')));
     f.push(format!("kfd={}", kfd as u8));
     typstyle_core::verif_hooks::reset();
@@ -543,6 +544,7 @@ pub fn range(w: usize, t: usize, a: usize, b: usize, src: &str) -> String {
     f.push(format!("kfg={}", has_linebreak_before_punct(root) as u8));
     f.push(format!("kfi={}", has_marker_like_text(root) as u8));
     f.push(format!("kfj={}", has_paren_key_collision(root) as u8));
+    f.push(format!("kfk={}", obs::has_table_in_mixed_line(root) as u8));
     let kfd = obs::obs_off(root).iter().any(|x| matches!(x, Some((_, t)) if t.contains('\n')));
     f.push(format!("kfd={}", kfd as u8));
     let cfg = config(w, t, false);
